@@ -48,6 +48,12 @@ def draw_case(rng, seed_rng_agent=None):
         vclass, vec = vectors.any_vector(rng, ver, p_valid=0.6)
         if rng.chance(0.04):
             vclass, vec = "dash", rng.choice(["-x", "-2", "--json", "-", "---", "-AV:N"])
+        elif rng.chance(0.04):
+            # first characters an argument parser may give a meaning to (argument files, alternative
+            # option prefixes, option/value separators): for the calculator they are just text
+            lead = rng.choice(["@", "@", "@", "+", "=", "^", "~", "%", "!", "#"])
+            rest = rng.choice(["", "foo", "/dev/null", "x", vec if vec else "AV:N"])
+            vclass, vec = "special-lead", lead + rest
         if vec == "":
             mode = "empty_vector"
     if mode == "empty_vector":
@@ -56,6 +62,9 @@ def draw_case(rng, seed_rng_agent=None):
         if vec.startswith("-"):
             form = "eq"
         elif vec == "":
+            form = rng.choice(["short", "long", "eq"])
+        elif vec.startswith("="):
+            # `-v=X` is argparse's own spelling of `-v X`: glued to the short option, a leading "=" is syntax
             form = rng.choice(["short", "long", "eq"])
         else:
             form = rng.choice(["short", "long", "eq", "glued"])
@@ -95,6 +104,8 @@ def decode_argv(argv):
             vec = argv[i] if i < len(argv) else None
         elif t.startswith("--vector="):
             vec = t[len("--vector="):]
+        elif t.startswith("-v="):
+            vec = t[3:]  # argparse's own spelling of `-v X`
         elif t.startswith("-v"):
             vec = t[2:]
         i += 1
